@@ -590,6 +590,9 @@ func c18GenCase(r *Rng) string {
 }
 
 func (c18) Run(in string, scratch string) Result {
+	if strings.HasPrefix(in, "ORD ") {
+		return c18OrdRun("part", in, scratch)
+	}
 	f := strings.Fields(in)
 	lease, _ := strconv.Atoi(f[0])
 	var pids []int
